@@ -54,12 +54,18 @@ def cases(seed, tier):
             k = r.choice([1, 2, 2, 3])
             c["violations"] = sorted(r.sample(VIOLATIONS, k=k))
         out.append(c)
+    # every invalid grid of the two tables once (the grid is rejected before any model is created: cheap)
+    for k in range(len(BAD_GRIDS) + len(BAD_DISC)):
+        out.append({"kind": "gen", "seed": seed * 1_000_003 + 12901 + k, "force": None, "n_params": 1, "budget": 600,
+                    "violations": ["bad_grid" if k < len(BAD_GRIDS) else "bad_disc"], "bad_index": k if k < len(BAD_GRIDS) else k - len(BAD_GRIDS)})
     return out
 
 
 BAD_GRIDS = [  # (kind, start, stop, n_points) as python values, and their PyVal JSON
     ("lin", 1, 1, 3), ("lin", 2, 1, 3), ("lin", 0, 1, 0), ("lin", 0, 1, -2), ("lin", 0, 1, 2.0), ("lin", "a", 1, 3), ("lin", 0, None, 3),
     ("log", 3, 2, 4), ("lin", 0.5, 0.5, 1),
+    ("lin", float("nan"), 1.0, 3), ("lin", 1.0, float("nan"), 3), ("log", 1.0, float("nan"), 3), ("log", float("nan"), 10.0, 4),
+    ("lin", float("inf"), 1.0, 3), ("lin", 0.0, float("inf"), 3), ("log", 1.0, float("inf"), 3), ("lin", float("-inf"), 0.0, 2),
 ]
 
 
@@ -81,7 +87,7 @@ def pyval_json(v):
     return ["other"]
 
 
-def apply_violations(r, mj, kinds):
+def apply_violations(r, mj, kinds, bad_index=None):
     """-> (raw model description for the builder and for the Lean model, applied kinds, bad grid or None)"""
     raw = copy.deepcopy(strip(mj))
     raw["states"] = [[k, g, True, True] for k, g in raw["states"]]
@@ -165,9 +171,9 @@ def apply_violations(r, mj, kinds):
             else:
                 continue
         elif k == "bad_grid":
-            bad_grid = r.choice(BAD_GRIDS)
+            bad_grid = BAD_GRIDS[bad_index % len(BAD_GRIDS)] if bad_index is not None else r.choice(BAD_GRIDS)
         elif k == "bad_disc":
-            bad_grid = ("disc", r.choice(BAD_DISC))
+            bad_grid = ("disc", BAD_DISC[bad_index % len(BAD_DISC)] if bad_index is not None else r.choice(BAD_DISC))
         applied.append(k)
     return raw, applied, bad_grid
 
@@ -269,7 +275,7 @@ def run_case(case):
         r = random.Random(case.get("seed", 0))
     else:
         mj, meta, Ps, r = materialise_case(case)
-        raw, applied, bad_grid = apply_violations(r, mj, case.get("violations", []))
+        raw, applied, bad_grid = apply_violations(r, mj, case.get("violations", []), case.get("bad_index"))
     out = {"sig": signature(mj) + "|" + ",".join(applied), "nontrivial": True, "evals": 1, "violations": [], "corr_breaks": [], "hist": {}}
     h = out["hist"]
     h[f"n_violations={len(applied)}"] = 1
